@@ -226,6 +226,10 @@ def _render_report(rng, p: Proj, idx: int, names_pool: list[str], depth: int = 0
             lines.append(f"{ind}leaftasksonly {_pick(rng, ['true', 'false'])}")
         if rng.random() < 0.15:
             lines.append(f"{ind}sorttasks {_pick(rng, ['id.up', 'id.down', 'start.up', 'name.down', 'tree.up'])}")
+        if rng.random() < 0.15:
+            lines.append(f"{ind}taskroot t{rng.randrange(0, 3)}")
+        if rng.random() < 0.1:
+            lines.append(f"{ind}hidetask {_pick(rng, ['@none', '@all', '~isleaf()'])}")
         if "scen" in p.tags and rng.random() < 0.3:
             lines.append(f"{ind}scenarios {_pick(rng, ['plan', 'delayed', 'plan, delayed'])}")
         if rng.random() < 0.1:
@@ -374,6 +378,14 @@ def gen_project(rng, reports: str = "mixed", size: str = "small") -> dict:
         p.tasks.append(f'task fob "FOB" {{\n  effort {rng.randrange(4, 20)}h\n  allocate fx {{ alternative {alts} }}\n  start {s0.isoformat()}\n}}')
         p.tasks.append('task foc "FOC" {\n  effort 3h\n  allocate fy\n  depends fob\n}')
         p.tags.add("failover")
+    if rng.random() < 0.15:
+        # weekly quota pattern: a long task on a resource with a weekly (and sometimes daily) limit, so that limit
+        # periods are queried across several week boundaries
+        p.resources.append('resource wq "WQ" {\n  limits { weeklymax %dh%s }\n}' % (_pick(rng, [8, 16, 20, 24]), _pick(rng, ["", " dailymax 6h"])))
+        p.tasks.append(f'task wqa "WQA" {{\n  effort {_pick(rng, [30, 40, 60])}h\n  allocate wq\n}}\ntask wqb "WQB" {{\n  effort 8h\n  allocate wq\n  depends wqa\n}}')
+        if p.dur in ("+1w", "+2w", "+10d"):
+            p.dur = "+6w"
+        p.tags.add("weekly-quota")
     if rng.random() < 0.1 and res_ids:
         # sub-slot chain: a predecessor that ends in the middle of a slot, successors needing less than a slot
         r = res_ids[0]
@@ -633,7 +645,7 @@ def variant(rng, text: str) -> str:
 
     lines = text.split("\n")
     for _ in range(1 + (rng.random() < 0.4)):
-        k = rng.randrange(8)
+        k = rng.randrange(9)
         m = re.search(r"project\s+\w+\s+\"[^\"]*\"\s+(\d{4})-(\d{2})-(\d{2})", text)
         try:
             base = date(int(m.group(1)), int(m.group(2)), int(m.group(3))) if m else date(2025, 1, 6)
@@ -665,6 +677,14 @@ def variant(rng, text: str) -> str:
             idx = [i for i, ln in enumerate(lines) if ln.strip().startswith(("efficiency ", "limits {"))]
             if idx:
                 del lines[_pick(rng, idx)]
+        elif k == 8:  # the same project starting a few days later (another weekday): header start and 'now' move
+            if m:
+                nb = base + timedelta(days=rng.randrange(1, 7))
+                for i, ln in enumerate(lines):
+                    if ln.startswith("project ") and base.isoformat() in ln:
+                        lines[i] = ln.replace(base.isoformat(), nb.isoformat(), 1)
+                    elif ln.strip().startswith("now ") and base.isoformat() in ln:
+                        lines[i] = ln.replace(base.isoformat(), nb.isoformat(), 1)
         elif k == 7:  # drop a macro definition or the 'now' attribute: the sibling still refers to it
             idx = [i for i, ln in enumerate(lines) if ln.startswith("macro ") and ln.rstrip().endswith("]")]
             if idx:
